@@ -67,7 +67,7 @@ CHECKS = {
     },
     "C05": {
         "units": ["dateroll"],
-        "kani": {"quick": ["chrono_view_is_days_from_civil", "chrono_from_ymd_validity"], "thorough": ["chrono_view_is_days_from_civil", "chrono_from_ymd_validity", "chrono_add_days", "chrono_sub_days"]},
+        "kani": {"quick": ["std_i8_unsigned_abs", "chrono_view_is_days_from_civil", "chrono_from_ymd_validity"], "thorough": ["std_i8_unsigned_abs", "chrono_view_is_days_from_civil", "chrono_from_ymd_validity", "chrono_add_days", "chrono_sub_days"]},
         "level": "proof",
         "assumptions": CHRONO_ASSUMPTIONS + [
             "the n-th business day (and, with settlement, an eligible day beyond it) exists inside chrono's range (add_bus_pre / lag_pre); bus_date_range additionally needs a business day after `end` (the real loop computes it)",
@@ -76,10 +76,10 @@ CHECKS = {
     },
     "C08": {
         "units": ["dateroll"],
-        "kani": {"quick": ["chrono_view_is_days_from_civil", "chrono_from_ymd_validity"], "thorough": ["chrono_view_is_days_from_civil", "chrono_from_ymd_validity", "chrono_add_days", "chrono_sub_days"]},
+        "kani": {"quick": ["std_i32_abs_signum", "std_i32_rem_euclid_12", "std_i32_try_from_u32", "chrono_view_is_days_from_civil", "chrono_from_ymd_validity"], "thorough": ["std_i32_abs_signum", "std_i32_rem_euclid_12", "std_i32_try_from_u32", "chrono_view_is_days_from_civil", "chrono_from_ymd_validity", "chrono_add_days", "chrono_sub_days"]},
         "level": "proof",
         "assumptions": CHRONO_ASSUMPTIONS + [
-            "specs of i32::abs / signum / rem_euclid / TryFrom (shim/intspecs.rs)",
+            "specs of i32::abs / signum / rem_euclid / i32::try_from(u32) / i8::unsigned_abs (shim/intspecs.rs): each checked by a Kani harness against the real std over the full domain (rem_euclid for the divisor 12, the one the code uses)",
             "the target year lies in chrono's representable range (the property's 1970-2200 is inside it)",
         ],
         "uncovered": [],
@@ -92,7 +92,7 @@ CHECKS = {
             {"case": "d4", "where": "rust/fx/rates/mod.rs", "what": "FXRates::from_json of a valid document with the quote list emptied / the currency list emptied / a quote duplicated"},
             {"case": "d6", "where": "rust/dual/linalg/linalg_dual.rs", "what": "PPSpline::csolve with a NaN site and with a NaN datum"},
         ],
-        "kani": {"quick": ["chrono_view_is_days_from_civil", "chrono_from_ymd_validity"], "thorough": ["chrono_view_is_days_from_civil", "chrono_from_ymd_validity", "chrono_add_days", "chrono_sub_days"]},
+        "kani": {"quick": ["std_i8_unsigned_abs", "std_i32_abs_signum", "std_i32_rem_euclid_12", "std_i32_try_from_u32", "chrono_view_is_days_from_civil", "chrono_from_ymd_validity"], "thorough": ["std_i8_unsigned_abs", "std_i32_abs_signum", "std_i32_rem_euclid_12", "std_i32_try_from_u32", "chrono_view_is_days_from_civil", "chrono_from_ymd_validity", "chrono_add_days", "chrono_sub_days"]},
         "level": "proof",
         "assumptions": CHRONO_ASSUMPTIONS,
         "uncovered": [
@@ -230,7 +230,7 @@ CHECKS = {
             "IndexSet<Ccy> insert / get_index_of / index, Array2::from_shape_vec / into_iter, Vec::clone_from, Iterator fold / enumerate / all / any: shim contracts",
         ],
         "uncovered": [
-            "sensitivity VALUES at FIRST order are proved (the fill-in extracted a second time at T := Dual with an additive-potential invariant: grad(cross i->j)(variable of quote k) * quote_k == (h_j - h_i) * cross, for every integer labelling h that steps by one across quote k and is level across the other quotes; lemma_seed_elastic, lemma_fx_sensitivity); that a tree of quotes HAS such a labelling (the two sides of the tree without edge k) is textbook and not machine-checked, the seeding function is read at T := Dual from its contract at the abstract ring, and termination of the Dual copy is not re-proved; SECOND-order sensitivities: bounded probe only",
+            "sensitivity VALUES are proved at BOTH orders (the fill-in extracted a second and third time at T := Dual / Dual2 with additive-potential invariants: grad(cross i->j)(variable of quote k) * quote_k == (h_j - h_i) * cross, and 2 * hess2(cross)(t1, t2) * q1 * q2 == (S1*S2 - [same quote]*S1) * cross; lemma_seed_elastic / lemma_seed_el2, lemma_fx_sensitivity / lemma_fx_sensitivity2); that a tree of quotes HAS the side labelling h (the two sides of the tree without edge k) is textbook and not machine-checked, the seeding function is read at T := Dual / Dual2 from its contract at the abstract ring, distinct quotes are taken to have distinct variable names, and termination of the two extra copies is not re-proved",
             "the characters of the name fx_xxxyyy (formatting macro): bounded probe only",
             "Python wrappers (fx_py.rs)",
         ],
